@@ -107,6 +107,8 @@ struct Shared {
     snapshot: Option<(PathBuf, bool)>,
     /// what one send costs on the simulated clock (ms): sending is not instantaneous
     send_cost_ms: u64,
+    /// the time-out the worker was configured with (what the server/client set on the socket before handing it over)
+    cfg_timeout_ms: u64,
 }
 
 struct Scripted {
@@ -186,10 +188,27 @@ impl Socket for Scripted {
     fn remote_addr(&self) -> Result<SocketAddr, Box<dyn Error>> {
         Ok("127.0.0.1:1".parse().unwrap())
     }
-    fn set_read_timeout(&mut self, _d: Duration) -> Result<(), Box<dyn Error>> {
+    // The workers of the pinned tree never touch the socket's time-outs (server and client set them before the hand-over). A worker that
+    // sets one to something else than the configured interval changes when its receive attempts fail - invisible to a scripted socket
+    // otherwise - so it is made part of the observation.
+    fn set_read_timeout(&mut self, d: Duration) -> Result<(), Box<dyn Error>> {
+        let mut sh = self.sh.lock().unwrap();
+        if d.as_millis() as u64 != sh.cfg_timeout_ms {
+            if sh.groups.is_empty() {
+                sh.groups.push(vec![]);
+            }
+            sh.groups.last_mut().unwrap().push(format!("RT{}", d.as_millis()));
+        }
         Ok(())
     }
-    fn set_write_timeout(&mut self, _d: Duration) -> Result<(), Box<dyn Error>> {
+    fn set_write_timeout(&mut self, d: Duration) -> Result<(), Box<dyn Error>> {
+        let mut sh = self.sh.lock().unwrap();
+        if d.as_millis() as u64 != sh.cfg_timeout_ms {
+            if sh.groups.is_empty() {
+                sh.groups.push(vec![]);
+            }
+            sh.groups.last_mut().unwrap().push(format!("WT{}", d.as_millis()));
+        }
         Ok(())
     }
 }
@@ -266,6 +285,7 @@ pub fn snd_line(toks: &[&str]) -> String {
         after_end: 0,
         snapshot: None,
         send_cost_ms,
+        cfg_timeout_ms: tmo,
     }));
     let sock = Scripted { sh: sh.clone() };
     let worker = Worker::new(Box::new(sock), path.clone(), true, b, Duration::from_millis(tmo), w, rep);
@@ -351,6 +371,7 @@ pub fn rcv_line(toks: &[&str]) -> String {
         after_end: 0,
         snapshot: Some((path.clone(), full)),
         send_cost_ms: 0,
+        cfg_timeout_ms: 5000,
     }));
     let sock = Scripted { sh: sh.clone() };
     let worker = Worker::new(Box::new(sock), path.clone(), clean, b, Duration::from_secs(5), w, rep);
@@ -435,7 +456,7 @@ pub fn dupwrq_line(toks: &[&str]) -> String {
         let hi = std::cmp::min(lo + b, content.len());
         script.push_back(Ev::Deliver(Packet_::Data(((k + 1) % 65536) as u16, content[lo..hi].to_vec()), 0));
     }
-    let sh = Arc::new(Mutex::new(Shared { script, groups: vec![], exhausted: false, ended: false, after_end: 0, snapshot: None, send_cost_ms: 0 }));
+    let sh = Arc::new(Mutex::new(Shared { script, groups: vec![], exhausted: false, ended: false, after_end: 0, snapshot: None, send_cost_ms: 0, cfg_timeout_ms: 5000 }));
     let wb = Worker::new(Box::new(Scripted { sh: sh.clone() }), path.clone(), clean, b, Duration::from_secs(5), w, 1);
     let sb = run_and_classify(sh.clone(), move || wb.receive().unwrap());
     let after_b = match std::fs::read(&path) {
